@@ -118,6 +118,21 @@ func buildInputs(seed int64) {
 	addCase("honest-k2", k2.pk, m2, ed25519.Sign(sk2, m2))
 	addCase("cofactored-only(R+T1)", k1.pk, m1, craft(k1.a, "a", plusT(1), k1.pk, m1))
 	addCase("cofactored-only(R+T4)", k1.pk, m1, craft(k1.a, "b", plusT(4), k1.pk, m1))
+	// keys that NEARLY collide with k1 (the honest signature of k1 under them is simply invalid): an index of the
+	// caching verifier keyed by part of the key (a prefix, a suffix, the y-coordinate) answers for k1 instead
+	{
+		nk := append([]byte{}, k1.pk...)
+		nk[31] ^= 0x80 // the negated point: bytes 0..30 and the low 7 bits of byte 31 in common
+		addCase("near-colliding-A(k1 sign-flipped)", nk, m1, honest1)
+		for d := byte(1); d != 0; d++ {
+			nk2 := append([]byte{}, k1.pk...)
+			nk2[0] += d // bytes 1..31 in common
+			if _, err := ed25519.NewExpandedPublicKey(nk2); err == nil {
+				addCase("near-colliding-A(k1 byte 0 changed)", nk2, m1, honest1)
+				break
+			}
+		}
+	}
 	fl := append([]byte{}, honest1...)
 	fl[32] ^= 1
 	addCase("flipped-S-bit", k1.pk, m1, fl)
@@ -1153,6 +1168,11 @@ func cachedClosure(c *mc.Ctx) {
 	O := func(n string) int { return optIdx[n] }
 	keysC := []string{"honest-k1", "honest-k2", "mixed-order-A", "small-order-A(T1)", "noncanonical-small-order-A(identity)", "undecodable-A", "key-31-bytes", "flipped-S-bit", "cofactored-only(R+T1)",
 		"key-33-bytes(k1||00)", "key-64-bytes(k1||k2)"}
+	for _, n := range []string{"near-colliding-A(k1 sign-flipped)", "near-colliding-A(k1 byte 0 changed)"} {
+		if _, ok := caseIdx[n]; ok {
+			keysC = append(keysC, n)
+		}
+	}
 	if _, ok := caseIdx["honest-kz(last byte 0)"]; ok {
 		keysC = append(keysC, "honest-kz(last byte 0)", "key-31-bytes(prefix of kz)")
 	}
